@@ -29,7 +29,10 @@ META = {
             "from the source on every run and must carry a shape with a proved order-independence lemma, a reviewed reading, or be a reported "
             "finding. On every run the real chain code produces and validates blocks (transfers, staking, tied votes, parameter votes, names, "
             "failing transactions) in five separate processes with GOMAXPROCS 1 and 16: block bytes, state roots, receipts roots and receipts "
-            "bytes must be identical and every produced block accepted by a fresh validator; the governance transactions of those blocks are replayed by "
+            "bytes must be identical and every produced block accepted by a fresh validator (cases include contract DEPLOY/CALL transactions whose VM is scripted to succeed with a fee, fail with a runtime "
+            "error, die with a VM system error after consuming a fee, time out, or exceed the payer's balance, under zero-fee and public fee regimes with a "
+            "coinbase account), and no dropped transaction may have changed BpReward / receipts / internalOps / CCProposal / the in-memory voting power; "
+            "the governance transactions of those blocks are replayed by "
             "the Gallina governance model, which must predict every accept / error class and the governance observables of every connected block; "
             "clause (d) (buckets ordered by account id) is evaluated directly on the real contract/system package.",
     "note": "Partial: goroutine scheduling of the parallel trie update is exercised (GOMAXPROCS 1 vs 16, separate processes) but race freedom "
@@ -247,6 +250,9 @@ def run(ctx):
             hist["included"] += len(pb.get("included") or [])
             for s in pb.get("skipped") or []:
                 hist["skipped"] += 1
+                if s.get("leak"):
+                    fails.append(("a dropped transaction changed a BlockState component that Snapshot/Rollback do not restore: " + s["leak"],
+                                  {"case": D.strip(c), "tx_index": s["i"], "error": s.get("err"), "leak": s["leak"]}))
                 r = (s.get("err") or "")[:40]
                 hist["skip_reasons"][r] = hist["skip_reasons"].get(r, 0) + 1
             kinds = tuple(sorted({t["kind"] for t in blk["txs"]}))
